@@ -7,6 +7,7 @@
 // A file is rewritten only when its content changes.  Anything in a region the tool must interpret but does not
 // understand becomes `Unsupported "..."`, which makes the dependent theorem fail.
 mod rustlite;
+mod veclite;
 use proc_macro2::{TokenStream, TokenTree};
 use quote::ToTokens;
 use std::collections::BTreeSet;
@@ -861,6 +862,25 @@ fn main() {
     let _ = writeln!(mem_v, "Definition gen_memsig : list (string * list string) := {}.", coq_list(&mem_entries));
 
     std::fs::create_dir_all(&out_dir).ok();
+    // the SIMD kernels and their vector wrapper types, as VecLite abstract syntax
+    let parse = |rel: &str| std::fs::read_to_string(format!("{}/{}", repo, rel)).ok().and_then(|t| syn::parse_file(&t).ok());
+    let kernel = ["zipper_merge", "update", "permute", "permute_and_update", "modular_reduction", "rotate_32_by", "update_remainder", "_mm_slli_si128_8"];
+    if let (Some(a), Some(b)) = (parse("src/x86/sse.rs"), parse("src/x86/v2x64u.rs")) {
+        let v = veclite::translate(&[("src/x86/sse.rs", &a), ("src/x86/v2x64u.rs", &b)], "SseHash", "V2x64U", &kernel, "src_sse");
+        write_if_changed(&format!("{}/SrcSse.v", out_dir), &v);
+    }
+    if let (Some(a), Some(b)) = (parse("src/x86/avx.rs"), parse("src/x86/v4x64u.rs")) {
+        let v = veclite::translate(&[("src/x86/avx.rs", &a), ("src/x86/v4x64u.rs", &b)], "AvxHash", "V4x64U", &kernel, "src_avx");
+        write_if_changed(&format!("{}/SrcAvx.v", out_dir), &v);
+    }
+    if let Some(a) = parse("src/aarch64.rs") {
+        let v = veclite::translate(&[("src/aarch64.rs", &a)], "NeonHash", "V2x64U", &kernel, "src_neon");
+        write_if_changed(&format!("{}/SrcNeon.v", out_dir), &v);
+    }
+    if let Some(a) = parse("src/wasm.rs") {
+        let v = veclite::translate(&[("src/wasm.rs", &a)], "WasmHash", "V2x64U", &kernel, "src_wasm");
+        write_if_changed(&format!("{}/SrcWasm.v", out_dir), &v);
+    }
     write_if_changed(&format!("{}/SrcFacts.v", out_dir), &facts_v);
     write_if_changed(&format!("{}/Ladder.v", out_dir), &ladder_v);
     write_if_changed(&format!("{}/MemSig.v", out_dir), &mem_v);
